@@ -311,6 +311,29 @@ Proof.
     rewrite (fields_law nm _ _ IH _ _ _ _ _ Eb). reflexivity.
 Qed.
 
+(** requests: id of the function line, then the arguments *)
+Theorem args_roundtrip nm sch : ids_distinct sch = true ->
+  forall fuel f v e rest, enc_args nm sch fuel f v = Some e ->
+  dec_args nm sch fuel f (e ++ rest) = Some (v, rest).
+Proof.
+  intros Hids fuel f v e rest H. unfold enc_args in H. unfold dec_args.
+  destruct v as [| | | |c fs]; try discriminate.
+  destruct (String.eqb_spec c (blbl nm f)) as [->|]; [|discriminate].
+  rewrite (fields_law nm _ _ (roundtrip nm sch Hids fuel) _ _ _ _ _ H). reflexivity.
+Qed.
+
+Theorem request_roundtrip nm sch : ids_distinct sch = true ->
+  forall f v e rest, tl_request nm sch f v = Some e ->
+  tl_request_decode nm sch f (e ++ rest) = Some (v, rest).
+Proof.
+  intros Hids f v e rest H. unfold tl_request in H. unfold tl_request_decode.
+  destruct (N.ltb_spec (did f) two32) as [Hn|]; [|discriminate].
+  destruct (enc_args nm sch tl_fuel f v) as [a|] eqn:Ea; [|discriminate].
+  apply Some_inj in H; subst e. rewrite <- app_assoc.
+  rewrite split_le, le_num_le_bytes_small by (rewrite pow256_4; exact Hn).
+  rewrite N.eqb_refl. apply (args_roundtrip nm sch Hids _ _ _ _ _ Ea).
+Qed.
+
 (** * Results do not depend on the fuel *)
 Lemma enc_list_mono (E E' : value -> option bytes) :
   (forall v e, E v = Some e -> E' v = Some e) ->
